@@ -25,7 +25,7 @@ inductive OV where
   | ninf
   | nan
   | miss
-deriving Repr, BEq
+deriving Repr, BEq, DecidableEq
 
 /-- IEEE `<` on oracle values (false when a NaN is involved) -/
 def OV.lt : OV → OV → Bool
@@ -203,48 +203,63 @@ def tiltTo (o : FOps) (slope ubErr : Rat) : Rat := fdiv o slope (fsub o 1 ubErr)
 def pointErr (o : FOps) (f y : Rat) : Rat :=
   if -1 ≤ f ∧ f ≤ 1 then rabs (fsub o f y) else fdiv o (rabs (fsub o f y)) (rabs f)
 
-/-- `maxErrorRelAbove1(x0, y0, x1, y1)` on subinterval `i` -/
-def maxErrRel (o : FOps) (f : Fn) (ubErr : Rat) (i : Int) (x0 y0 x1 y1 : Rat) : Except Status Rat := do
-  if !(x0 < x1) then throw .degenerate
-  if !(0 < ubErr) then throw .uberr
-  let f0 ← getFin (f.eval x0)
-  let f1 ← getFin (f.eval x1)
-  let pts := [(f0, y0), (f1, y1)]
-  let dxx := fsub o x1 x0
-  if dxx = 0 then throw .nonfinite
-  let slope := slopeOf o x0 y0 x1 y1
-  let pts ← addCand o f x0 y0 slope pts (f.invd1 i slope)
+/-- maximum of the per-point errors (`errMax` loop of `maxErrorRelAbove1`) -/
+def errMaxOf (o : FOps) (pts : List (Rat × Rat)) : Rat :=
+  pts.foldl (fun errMax (fy : Rat × Rat) =>
+    let err := pointErr o fy.1 fy.2
+    if errMax < err then err else errMax) 0
+
+/-- candidate at the pre-image of `c = ±1` when the segment crosses it -/
+def addPreim (o : FOps) (f : Fn) (i : Int) (x0 y0 x1 slope : Rat) (c : Rat) (cross : Bool)
+    (pts : List (Rat × Rat)) : Except Status (List (Rat × Rat)) :=
+  if cross then
+    match f.inv i c with
+    | .fin xp =>
+      if !(x0 < xp ∧ xp < x1) then throw .preim
+      else pure (pts ++ [(c, fadd o y0 (fmul o (fsub o xp x0) slope))])
+    | .miss => throw .miss
+    | _ => throw .preim
+  else pure pts
+
+/-- candidate where `f' = s` if `s` lies between the end-point derivatives -/
+def addTilted (o : FOps) (f : Fn) (i : Int) (x0 y0 slope : Rat) (fp0 fp1 : OV) (s : Rat)
+    (pts : List (Rat × Rat)) : Except Status (List (Rat × Rat)) :=
+  if OV.le fp0 (.fin s) && OV.le (.fin s) fp1 then addCand o f x0 y0 slope pts (f.invd1 i s) else pure pts
+
+/-- the candidate points after the middle-value point: tilted slopes and pre-images of `±1` -/
+def candRest (o : FOps) (f : Fn) (ubErr : Rat) (i : Int) (x0 y0 x1 slope f0 f1 : Rat)
+    (pts : List (Rat × Rat)) : Except Status (List (Rat × Rat)) :=
   let a := f.d1 x0
   let b := f.d1 x1
   if a == .miss || b == .miss then throw .miss
-  let (fp0, fp1) := if OV.lt b a then (b, a) else (a, b)
-  let sA := tiltAway o slope ubErr
-  let pts ← if OV.le fp0 (.fin sA) && OV.le (.fin sA) fp1 then addCand o f x0 y0 slope pts (f.invd1 i sA) else pure pts
-  let pts ← if ubErr ≠ 1 then do
-      let den := fsub o 1 ubErr
-      if den = 0 then throw .nonfinite
-      let sT := tiltTo o slope ubErr
-      if OV.le fp0 (.fin sT) && OV.le (.fin sT) fp1 then addCand o f x0 y0 slope pts (f.invd1 i sT) else pure pts
-    else pure pts
-  let pts ← if f0 < 1 ∧ 1 < f1 then do
-      match f.inv i 1 with
-      | .fin xp =>
-        if !(x0 < xp ∧ xp < x1) then throw .preim
-        pure (pts ++ [((1 : Rat), fadd o y0 (fmul o (fsub o xp x0) slope))])
-      | .miss => throw .miss
-      | _ => throw .preim
-    else pure pts
-  let pts ← if f0 < -1 ∧ -1 < f1 then do
-      match f.inv i (-1) with
-      | .fin xp =>
-        if !(x0 < xp ∧ xp < x1) then throw .preim
-        pure (pts ++ [((-1 : Rat), fadd o y0 (fmul o (fsub o xp x0) slope))])
-      | .miss => throw .miss
-      | _ => throw .preim
-    else pure pts
-  pure <| pts.foldl (fun errMax (fy : Rat × Rat) =>
-    let err := pointErr o fy.1 fy.2
-    if errMax < err then err else errMax) 0
+  else
+    let fp0 := if OV.lt b a then b else a
+    let fp1 := if OV.lt b a then a else b
+    addTilted o f i x0 y0 slope fp0 fp1 (tiltAway o slope ubErr) pts >>= fun pts =>
+    (if ubErr ≠ 1 then
+        (if fsub o 1 ubErr = 0 then throw .nonfinite
+         else addTilted o f i x0 y0 slope fp0 fp1 (tiltTo o slope ubErr) pts)
+      else pure pts) >>= fun pts =>
+    addPreim o f i x0 y0 x1 slope 1 (decide (f0 < 1 ∧ 1 < f1)) pts >>= fun pts =>
+    addPreim o f i x0 y0 x1 slope (-1) (decide (f0 < -1 ∧ -1 < f1)) pts
+
+/-- the list of candidate points `(f(x), chord(x))` examined by `maxErrorRelAbove1(x0, y0, x1, y1)`: both ends, the
+middle-value point `inverse_1st(slope)`, the tilted-slope points, the pre-images of `±1` -/
+def candPoints (o : FOps) (f : Fn) (ubErr : Rat) (i : Int) (x0 y0 x1 y1 : Rat) :
+    Except Status (List (Rat × Rat)) :=
+  if !(x0 < x1) then throw .degenerate
+  else if !(0 < ubErr) then throw .uberr
+  else
+    getFin (f.eval x0) >>= fun f0 =>
+    getFin (f.eval x1) >>= fun f1 =>
+    if fsub o x1 x0 = 0 then throw .nonfinite
+    else
+      addCand o f x0 y0 (slopeOf o x0 y0 x1 y1) [(f0, y0), (f1, y1)] (f.invd1 i (slopeOf o x0 y0 x1 y1)) >>= fun pts =>
+      candRest o f ubErr i x0 y0 x1 (slopeOf o x0 y0 x1 y1) f0 f1 pts
+
+/-- `maxErrorRelAbove1(x0, y0, x1, y1)` on subinterval `i` -/
+def maxErrRel (o : FOps) (f : Fn) (ubErr : Rat) (i : Int) (x0 y0 x1 y1 : Rat) : Except Status Rat :=
+  candPoints o f ubErr i x0 y0 x1 y1 >>= fun pts => pure (errMaxOf o pts)
 
 /-- the decision of `CompareError` -/
 def cmpCode (err ub : Rat) : Int := if err < ub then -1 else if ub < err then 1 else 0
